@@ -210,8 +210,7 @@ if 'dur_lex' in req:
     for s in req['dur_lex']:
         r = guarded(DU.to_py, s)
         if isinstance(r, float):
-            us = round(r * 1_000_000)
-            res.append([us, guarded(DU.to_xml, r)])
+            res.append([me(r), guarded(DU.to_xml, r)])
         else:
             res.append([r, None])
     out['dur_lex'] = res
